@@ -142,6 +142,9 @@ pub fn run_parts(
                 acc.count("rejected_by_admission", 1);
                 return;
             };
+            if !origin_selected(&case.origin) {
+                return;
+            }
             let mut r = Rng::new(s);
             f(part, &case, &mut r, acc);
         });
@@ -156,6 +159,26 @@ pub fn run_parts(
         total.merge(acc);
     }
     (total, meta)
+}
+
+/// Construction-time only (incremental triage, `tools_triage.sh --from`): `TYV_ORIGIN_FROM="adv#950,snippet#730"` restricts a
+/// sweep to cases whose base is one of the named corpus lists at or after the given index (entries appended since the last
+/// full sweep). Registered checks never set it.
+fn origin_selected(origin: &str) -> bool {
+    static FILTER: std::sync::OnceLock<Vec<(String, usize)>> = std::sync::OnceLock::new();
+    let f = FILTER.get_or_init(|| {
+        std::env::var("TYV_ORIGIN_FROM")
+            .ok()
+            .map(|v| v.split(',').filter_map(|e| e.split_once('#').and_then(|(n, k)| Some((n.to_string(), k.parse().ok()?)))).collect())
+            .unwrap_or_default()
+    });
+    if f.is_empty() {
+        return true;
+    }
+    let base = origin.split('|').next().unwrap_or("");
+    let Some((name, idx)) = base.split_once('#') else { return false };
+    let Ok(idx) = idx.parse::<usize>() else { return false };
+    f.iter().any(|(n, from)| n == name && idx >= *from)
 }
 
 /// Run a tree property over the parts.
